@@ -131,6 +131,11 @@ static std::vector<Instance> instances(const std::string &tier) {
 	// (at the root / below an inner node) while a reader that is already inside the leaf looks for the erased key
 	add("S8-emptied-leaf-then-other-prefix", Bq, Script{{{false, A}}, {{true, A}, {false, B}}, {{A, B}}});
 	add("S9-emptied-leaf-below-inner", Bq, Script{{{false, A}, {false, B}}, {{true, A}, {false, D}}, {{A, D}}});
+	// readers that look for keys that are NEVER inserted and differ from a stored key only in a nibble the path to it skips
+	// (A and D share an inner node that indexes on nibble 13; nibble 14 is compressed away): "a value stored under exactly
+	// the requested key" - or null
+	add("S10-absent-keys-in-a-skipped-nibble", Bq, Script{{{false, A}}, {{false, D}, {false, E}}, {{A + 0x10, D + 0xf0, A + 0x20}}});
+	add("S11-absent-keys-while-erasing", Bq, Script{{{false, A}, {false, D}}, {{true, A}, {false, A + 0x30}}, {{A + 0x10, A + 0x30, D + 0x10}}});
 	if(th) {
 		add("S6-two-readers", 2, Script{{{false, A}}, {{false, B}, {false, D}}, {{A, B}, {D, A}}});
 		add("S7-long-writer", 2, Script{{}, {{false, A}, {false, B}, {false, C}, {false, D}, {true, A}}, {{A, D}}});
